@@ -148,6 +148,7 @@ def make_cases(ctx):
             add("daymonth", pref, base, "%d %s" % (d, MON[m - 1]), m=m, d=d)
         cases[-1]["settings"]["RELATIVE_BASE"] = {"dt": list(base), "tz": off}
         cases[-1]["awarebase"] = True
+        cases[-1]["boff"] = off
     # a clock time alone, reference timezone-aware and written in the zone that TIMEZONE names (zones with daylight saving
     # included, away from their transition days): nearest occurrence on the demanded side
     for _ in range(300 if ctx.quick() else 5000):
@@ -223,7 +224,7 @@ def run(ctx):
     records, nabs = [], 0
     for i, (c, r) in enumerate(zip(cases, results)):
         records.append({"kind": "c09", "tid": i, "form": c["form"], "pref": c["pref"], "base": c["base"], "w": c["w"],
-                        "t": c["t"], "m": c["m"], "d": c["d"], "yy": c["yy"], "off": c["off"], "soff": c.get("soff", 0), "out": r["out"], "exc": r["exc"]})
+                        "t": c["t"], "m": c["m"], "d": c["d"], "yy": c["yy"], "off": c["off"], "soff": c.get("soff", 0), "boff": c.get("boff", 0), "out": r["out"], "exc": r["exc"]})
         ar = absfam.abs_records(i, r)
         nabs += len(ar)
         records.extend(ar)
